@@ -17,7 +17,19 @@ import (
 	"github.com/pion/rtp"
 )
 
-func newDesc() *description.Session {
+func newDesc() *description.Session { return newDescBack(false) }
+
+// newDescBack: with an ONVIF back-channel media (trackID=2) on request.
+func newDescBack(back bool) *description.Session {
+	d := newDescPlain()
+	if back {
+		d.Medias = append(d.Medias, &description.Media{Type: description.MediaTypeAudio, IsBackChannel: true,
+			Formats: []format.Format{&format.G711{PayloadTyp: 0, MULaw: true, SampleRate: 8000, ChannelCount: 1}}})
+	}
+	return d
+}
+
+func newDescPlain() *description.Session {
 	return &description.Session{Medias: []*description.Media{
 		{Type: description.MediaTypeVideo, Formats: []format.Format{&format.H264{PayloadTyp: 96, PacketizationMode: 1}}},
 		{Type: description.MediaTypeAudio, Formats: []format.Format{&format.G711{PayloadTyp: 0, MULaw: true, SampleRate: 8000, ChannelCount: 1}}},
@@ -31,6 +43,7 @@ type handler struct {
 	stream *gortsplib.ServerStream
 	first  *gortsplib.ServerSession
 	nPlay  atomic.Int64
+	nBack  atomic.Int64 // RTP packets received on a playing session (back channel)
 	nRec   atomic.Int64
 }
 
@@ -88,6 +101,10 @@ func (h *handler) OnPlay(ctx *gortsplib.ServerHandlerOnPlayCtx) (*base.Response,
 	h.rec.SessReq(ctx.Session, ctx.Conn, "OnPlay")
 	ss := ctx.Session
 	ss.OnPacketRTCPAny(func(_ *description.Media, _ rtcp.Packet) { h.rec.Packet(ss, "OnPacketRTCP") })
+	ss.OnPacketRTPAny(func(_ *description.Media, _ format.Format, _ *rtp.Packet) {
+		h.nBack.Add(1)
+		h.rec.Packet(ss, "OnPacketRTP(back channel)")
+	})
 	h.nPlay.Add(1)
 	return &base.Response{StatusCode: base.StatusOK}, nil
 }
@@ -194,6 +211,7 @@ type srvOpts struct {
 	rcvbuf       int
 	stall        *atomic.Bool // non-nil: accepted connections stop reading when it is set
 	multicast    bool         // enable the UDP-multicast transport
+	backChannel  bool         // the stream has an ONVIF back-channel media
 	seed         uint64
 }
 
@@ -245,7 +263,7 @@ func startServer(rec *Rec, o srvOpts) (*serverFixture, error) {
 	fx.addr = ta.String()
 	fx.ports[fmt.Sprintf("tcp:%d", ta.Port)] = true
 	if o.withStream {
-		fx.desc = newDesc()
+		fx.desc = newDescBack(o.backChannel)
 		fx.stream = &gortsplib.ServerStream{Server: fx.srv, Desc: fx.desc}
 		if err = fx.stream.Initialize(); err != nil {
 			fx.srv.Close()
